@@ -645,6 +645,11 @@ pub open spec fn cell_wf(typ: int, p: Seq<u8>, nstr: int) -> bool {
     else if typ == 7 { p.len() >= 12 && le32(p.subrange(8, 12)) < nstr }
     else { false }
 }
+/// what every arm of next_cell takes for granted before indexing: a cell record is long enough for its kind (and its shared string
+/// index is in range), a BrtRowHdr has its 4-byte row number
+pub open spec fn record_long_enough(typ: int, p: Seq<u8>, nstr: int) -> bool {
+    (is_cell_kind(typ) ==> cell_wf(typ, p, nstr)) && (typ == 0x0000 ==> p.len() >= 4)
+}
 /// the record carries a value the reader must reject with an error: unknown BErr code, or a string longer than its record
 pub open spec fn cell_rejected(typ: int, p: Seq<u8>) -> bool {
     ((typ == 3 || typ == 0xB) && berr(p[8]) is None)
@@ -683,8 +688,10 @@ pub open spec fn cell_val_ok(typ: int, p: Seq<u8>, fmts: Seq<CellFormat>, strs: 
     else if typ == 2 { val_rk(p, fmts, is_1904, v) }
     else { false }
 }
-/// a cell record of a kind the reader reports (BrtFmlaError is handled by its own clause), well-formed
-pub open spec fn good_cell(sc: Scan, nstr: int) -> bool { sc is Cell && sc->typ != 0xB && cell_wf(sc->typ, sc->payload, nstr) }
+/// (false exactly for BrtFmlaError: asserted where a record of that kind falls into the catch-all arm)
+pub open spec fn fmla_error_not_dropped(typ: u16) -> bool { typ != 0x000B }
+/// a well-formed cell record (all ten kinds, BrtFmlaError included)
+pub open spec fn good_cell(sc: Scan, nstr: int) -> bool { sc is Cell && cell_wf(sc->typ, sc->payload, nstr) }
 pub open spec fn is_date_fmt(f: Option<CellFormat>) -> bool { f == Some(CellFormat::DateTime) || f == Some(CellFormat::TimeDelta) }
 
 //@@ impl src/xlsb/cells_reader.rs XlsbCellsReader
@@ -724,12 +731,6 @@ pub open spec fn is_date_fmt(f: Option<CellFormat>) -> bool { f == Some(CellForm
         scan(old(self).rem(), old(self).cur_row()) is End ==> r is Ok && r->Ok_0 is None,
         //# C03.truncated_err
         scan(old(self).rem(), old(self).cur_row()) is Truncated ==> r is Err,
-        // "A formula cell contributes its cached value exactly like a constant cell of the same type": BrtFmlaError like BrtCellError
-        //# C03.fmla_error_cached_value
-        ({ let sc = scan(old(self).rem(), old(self).cur_row());
-            sc is Cell && sc->typ == 0xB && cell_wf(sc->typ, sc->payload, old(self).strs().len() as int) && !cell_rejected(sc->typ, sc->payload)
-            ==> r is Ok && r->Ok_0 is Some && r->Ok_0->Some_0.p() == (sc->row, le32(sc->payload) as u32)
-                && cell_val_ok(sc->typ, sc->payload, old(self).fmts(), old(self).strs(), old(self).f1904(), r->Ok_0->Some_0.v()) }),
         // C10 "DateTime iff the style is a date/time format": floating-point kinds (BrtCellReal, BrtFmlaNum, RK stored as double)
         //# C10.real_datetime_iff_date_format
         ({ let sc = scan(old(self).rem(), old(self).cur_row());
@@ -746,20 +747,28 @@ let verif_out; loop
 { verif_out = value; break; }
 //@@ before /let col = /
         let value = verif_out;
+//@@ before /_ => /
+                // "A formula cell contributes its cached value exactly like a constant cell of the same type" (BrtFmlaError 0x000B like
+                // BrtCellError 0x0003). Ghost-only arm: its guard is always false, so control falls through to the catch-all arm as
+                // in the real code; the guard is evaluated exactly when a BrtFmlaError record is NOT taken by any value arm.
+                0x000B if ({ proof {
+                    //# C03.fmla_error_cached_value
+                    assert(fmla_error_not_dropped(self.typ));
+                } false }) => continue,
 //@@ before /break value;/
             proof {
                 let nstr = self.strings@.len() as int;
                 let t = self.typ as int;
                 // the record the loop stopped at is the one `scan` designates
                 //# C03.cell_record_identified
-                assert(scan(s0, row0) is Malformed || (scan(s0, row0) is Cell && scan(s0, row0)->typ == 0xB)
+                assert(scan(s0, row0) is Malformed
                     || scan(s0, row0) == (Scan::Cell { row: self.row, typ: t, payload: p, rest: self.iter.rem() }));
-                if is_cell_kind(t) && t != 0xB && cell_wf(t, p, nstr) {
+                if is_cell_kind(t) && cell_wf(t, p, nstr) {
                     //# C03.col_bytes_untouched
                     assert(self.buf@.len() >= 4 && self.buf@[0] == p[0] && self.buf@[1] == p[1] && self.buf@[2] == p[2] && self.buf@[3] == p[3]);
                     //# C03.value_not_rejected
                     assert(!cell_rejected(t, p));
-                    if t == 3 {
+                    if t == 3 || t == 0xB {
                         //# C03.value_error
                         assert(val_error(p, value));
                     } else if t == 4 || t == 0xA {
@@ -789,7 +798,7 @@ let verif_out; loop
         proof { axiom_f64_div(); }
 //@@ loop 0
             invariant_except_break
-                (scan(s0, row0) is Cell && scan(s0, row0)->typ == 0xB) || scan(s0, row0) is Malformed || scan(s0, row0) == scan(self.iter.rem(), self.row),
+                scan(s0, row0) is Malformed || scan(s0, row0) == scan(self.iter.rem(), self.row),
             invariant
                 s0 == old(self).iter.rem(), row0 == old(self).row,
                 self.formats@ == old(self).formats@, self.strings@ == old(self).strings@, self.is_1904 == old(self).is_1904,
@@ -800,6 +809,7 @@ let verif_out; loop
                     && self.buf@[0] == sc->payload[0] && self.buf@[1] == sc->payload[1] && self.buf@[2] == sc->payload[2] && self.buf@[3] == sc->payload[3]
                     && cell_val_ok(sc->typ, sc->payload, self.formats@, self.strings@, self.is_1904, verif_out) }),
                 scan(s0, row0) is Cell || scan(s0, row0) is Malformed,
+                self.buf@.len() >= 9,
             decreases self.iter.rem().len(),
 //@@ before /if is_int/
                     proof { if p.len() >= 12 { lemma_rk(p, self.buf@); } }
@@ -848,6 +858,12 @@ let verif_out; loop
                 assert(self.iter.rem() == rec_rest(cur));
             }
             let ghost p = self.buf@;
+            // C06: nothing in next_cell checks the length of a record (or the shared string index) before indexing. Stated once, here,
+            // instead of at each of the ~20 index expressions of the arms: this obligation fails (known finding), is then taken as a
+            // hypothesis, and every index / slice / callee precondition below must follow from it -- an index beyond what
+            // `cell_wf` grants (or a new unguarded one) is a new failing obligation.
+            //# C06.record_long_enough_for_its_kind
+            assert(record_long_enough(self.typ as int, p, self.strings@.len() as int));
 //@@ end
 //@@ endimpl
 
